@@ -51,6 +51,13 @@ pub fn run(case: &str, args: &[String]) -> Option<Value> {
                 Err(e) => json!({"outcome": "err", "detail": format!("{:?}", e)}),
             }
         }
+        "rvr.table" => {
+            let id = ruma_common::RoomVersionId::try_from(a[0].as_str()).unwrap();
+            match id.rules() {
+                Some(r) => json!({"outcome": "ok", "detail": format!("{:?}", r)}),
+                None => json!({"outcome": "err", "detail": "no rules"}),
+            }
+        }
         _ => return None,
     })
 }
